@@ -61,6 +61,17 @@ os.makedirs(d, exist_ok=True)
 shutil.copy(patch, os.path.join(d, "patch.diff")); shutil.copy(demo, os.path.join(d, "demo_test.rs"))
 if os.path.exists(notes): shutil.copy(notes, os.path.join(d, "notes.md"))
 meta["what_i_ran"] = "scratch worktree of /repo HEAD: demo without change, apply patch, demo with change, cargo test --workspace; then ./check <id> --tier quick of a framework copy whose harness points at the patched worktree"
-json.dump(meta, open(os.path.join(d, "meta.json"), "w"), indent=1)
+prev_path = os.path.join(d, "meta.json")
+if os.path.exists(prev_path):
+    # keep what earlier versions of the checks said about this change (a check that missed it and
+    # was strengthened afterwards stays visible)
+    try:
+        prev = json.load(open(prev_path))
+        hist = prev.get("earlier_runs", [])
+        hist.append({p: r.get("exit") for p, r in prev.get("checks", {}).items()})
+        meta["earlier_runs"] = hist
+    except Exception:
+        pass
+json.dump(meta, open(prev_path, "w"), indent=1)
 print(json.dumps({k: meta[k] for k in ("demo_passes_without_change", "demo_fails_with_change", "existing_suite_with_change", "caught_by")}, indent=1))
 for p, r in results.items(): print(p, r["exit"], r["lines"][:3], r.get("first_replay", {}).get("violated_clause"))
